@@ -66,6 +66,9 @@ func TestC15Rotation(t *testing.T) {
 		if s.Reopens > 0 {
 			cl = append(cl, "reopen")
 		}
+		if s.PrunedOutsideRotation > 0 {
+			cl = append(cl, "pruned_outside_rotation")
+		}
 		if s.Restarts > 0 {
 			cl = append(cl, "restart_new_sink_value")
 		}
